@@ -71,6 +71,11 @@ class ClassInfo(object):
                 for t in st.targets:
                     if isinstance(t, ast.Name):
                         self.class_attrs[t.id] = st.value
+                    elif isinstance(t, (ast.Tuple, ast.List)) and isinstance(st.value, (ast.Tuple, ast.List)) and \
+                            len(t.elts) == len(st.value.elts) and not any(isinstance(e, ast.Starred) for e in st.value.elts):
+                        for te, ve in zip(t.elts, st.value.elts):     # A, B = 1.0, 'nanometer'
+                            if isinstance(te, ast.Name):
+                                self.class_attrs[te.id] = ve
 
     @property
     def qualname(self):
